@@ -296,7 +296,38 @@ def roundtrip(c):
 
 
 _F = INF
+
+@contract(P, "RecordTensor.select/insert[default offset]", [(INF, "RecordTensor.select"), (INF, "RecordTensor.insert")])
+def default_offset(c):
+    """callers that do not pass `offset`: select (every reducer view, every synapse delayed read) uses offset 1 - time 0
+    is the NEWEST observation, the pointer naming the next write position; insert uses offset 0 (as write does)"""
+    N, ptr, dt, s, tau, off, r = _setup(c)
+    k = c.int("k")
+    c.require(0 <= k, k < N)
+    rr, on, in_range, cl, fl = _spec_pieces(N, s, tau)
+    c.require(in_range, on)
+    which = c.choice("operation", ["select_scalar", "select_tensor", "insert_scalar"])
+    if which == "select_scalar":
+        out = c.outcome(r.method("select"), dt * s, interp_model(), tolerance=dt * tau)
+        c.expect_return(out)
+        c.ensure("time_zero_is_the_newest_observation", out.value.f == r.M0(1 + rr))
+        c.canary("canary_offset_zero", out.value.f == r.M0(rr))
+    elif which == "select_tensor":
+        out = c.outcome(r.method("select"), T(dt.z * s.z, "float", None, None, r.S), interp_model(), tolerance=dt * tau)
+        c.expect_return(out)
+        c.ensure("time_zero_is_the_newest_observation", out.value.f == r.M0(1 + rr))
+        c.canary("canary_offset_zero", out.value.f == r.M0(rr))
+    else:
+        obs = c.pw("obs", "float", eshape=r.S)
+        out = c.outcome(r.method("insert"), obs, dt * s, extrap_model(), tolerance=dt * tau)
+        c.expect_return(out)
+        hit = smod(num(k) - rr, N.z) == 0
+        c.ensure("insert_default_offset_is_the_write_position", z3.If(hit, r.M1(k) == obs.f, r.M1(k) == r.M0(k)))
+        c.canary("canary_nothing_written", r.M1(k) == r.M0(k))
+
+
 MUTANTS = [
+    dict(file=_F, func="RecordTensor.select", old="        offset: int = 1,\n        interp_kwargs", new="        offset: int = 0,\n        interp_kwargs", contracts=["RecordTensor.select/insert[default offset]"], name="select: default offset changed"),
     dict(file=_F, func="RecordTensor.select", old="torch.where(torch.abs(dt * shiftr - time) <= tolerance, shiftr, shift),", new="torch.where(torch.abs(dt * shiftr - time) < tolerance, shiftr, shift),", contracts=["RecordTensor.select[tensor]"], name="seed C06: tensor-time tolerance test <= -> <"),
     dict(file=_F, func="RecordTensor.select", old="prev_idx, next_idx = offset.ceil(), offset.floor()", new="prev_idx, next_idx = offset.floor(), offset.ceil()", contracts=["RecordTensor.select[tensor]"], name="tensor select: brackets swapped"),
     dict(file=_F, func="RecordTensor.select", old="                dt - dt * (shift % 1),\n", new="                dt * (shift % 1),\n", contracts=["RecordTensor.select[tensor]"], name="tensor select: elapsed time measured from the wrong bracket"),
